@@ -89,6 +89,8 @@ pub fn render(rng: &mut Rng, t: &Term, vars: &mut Vec<(String, String)>) -> Stri
         }
         "cmd" => format!("[ident {}]", Value::from(vec![Value::from(t.nth(1).as_str())]).as_str()),
         "rec" => format!("[rec k{} {}]", t.nth(1).as_int(), Value::from(vec![Value::from(t.nth(2).as_str())]).as_str()),
+        "qrec" => format!("\"[rec k{} {}]\"{}", t.nth(1).as_int(), Value::from(vec![Value::from(t.nth(2).as_str())]).as_str(), pad(rng)),
+        "qunset" => format!("\"$nosuch{}\"{}", t.nth(1).as_int(), pad(rng)),
         "unset" => format!("$nosuch{} ", t.nth(1).as_int()),
         "badcmd" => "[nosuchcmd 1]".to_string(),
         "raw" => t.nth(1).as_str().to_string(),
